@@ -26,6 +26,21 @@ CHECKS = {
              "reachable from a document body."),
     "technique": "deterministic simulation: seeded API-call histories with injected rejected calls, invariants after every step, ddmin-minimised replay",
   },
+  "C08": {
+    "engine": "sim608",
+    "category": "exploration",
+    "text": ("A simulated caption encoder executes seeded pop-on / roll-up / paint-on scripts and owns the frame clock; a simulated line-21 channel "
+             "perturbs the word stream (codes once or twice, null padding, channel-2 bursts, parity cleared, different line segmentation, NDF/DF "
+             "labels from seeded start frames incl. minute, ten-minute and hour boundaries, idle gaps); the real SCC reader decodes it and a "
+             "reference CEA-608 decoder is fed the same transmitted words in lock step. History oracle: every emitted begin/end is an exact frame "
+             "multiple, not before its line label and inside the transmission window of display-affecting words; in the middle of every quiescent "
+             "interval the document shows the same rows, characters and pen attributes as the reference displayed memory. Sampling over scripts "
+             "and channel schedules."),
+    "design_ref": "DESIGN.md section 3 (C08)",
+    "note": ("Trusted: sim/ref/screen608.py as a model of CEA-608 for the generated (protocol-following) scripts; comparison only at quiescent frames "
+             "with blank runs collapsed; roll-up rows by order and count. Two open known findings (rows written over earlier content)."),
+    "technique": "deterministic simulation: simulated encoder + perturbing channel with a simulated frame clock, lock-step reference decoder, history check of display and change times",
+  },
   "C18": {
     "engine": "simio",
     "category": "fault_enumeration",
@@ -125,6 +140,7 @@ def main():
       {"name": "simmodel", "path": "/verif/checks/c15.py", "serves_properties": ["C15"], "kind_free_text": "API-call history machine over the canonical model"},
       {"name": "simio", "path": "/verif/checks/c18.py", "serves_properties": ["C18"], "kind_free_text": "producers + storage/channel fault injector (sim/faults.py, sim/producers) + real reader pipeline"},
       {"name": "simisd", "path": "/verif/checks/c14.py", "serves_properties": ["C14"], "kind_free_text": "shared-document call histories vs pristine reference"},
+      {"name": "sim608", "path": "/verif/checks/c08.py", "serves_properties": ["C08"], "kind_free_text": "caption encoder + channel (sim/producers/scc608.py), reference decoder (sim/ref/screen608.py), document evaluator"},
       {"name": "simcli", "path": "/verif/checks/c19.py", "serves_properties": ["C19"], "kind_free_text": "tt.main histories over an in-memory file system (sim/simfs.py) vs library pipeline (sim/ref/pipeline.py)"},
     ],
     "checks": checks,
